@@ -18,14 +18,14 @@ def parse(text):
                 i += 1
             res["order"].append(("rule", len(res["rules"])))
             res["rules"].append(r)
-        elif ln.startswith("build "):
+        elif ln.startswith("build ") or ln.startswith("build:"):
             # logical line with `$\n    ` continuations
             logical = ln
             while logical.endswith("$") and i + 1 < n:
                 i += 1
                 logical = logical[:-1] + lines[i].lstrip()
             i += 1
-            head, _, rest = logical[6:].partition(":")
+            head, _, rest = logical[5:].partition(":")
             outs = head.split()
             toks = rest.split()
             rule = toks[0] if toks else ""
